@@ -620,15 +620,34 @@ private:
                 });
             }
             __TBB_ASSERT(static_cast<std::ptrdiff_t>(my_queue_representation->tail_counter.load(std::memory_order_relaxed)) > target, nullptr);
-        } while (!my_queue_representation->choose(target).pop(dst, target, *my_queue_representation, my_allocator));
+        } while (!pop_and_notify_on_exception(dst, target));
 
         r1::notify_bounded_queue_monitor(my_monitors, cbq_slots_avail_tag, target);
+    }
+
+    // If the assignment of the popped item throws, the slot is consumed anyway,
+    // so the threads waiting for a free slot have to be notified
+    bool pop_and_notify_on_exception( void* dst, std::ptrdiff_t target ) {
+        bool popped = false;
+        try_call( [&] {
+            popped = my_queue_representation->choose(target).pop(dst, target, *my_queue_representation, my_allocator);
+        }).on_exception( [&] {
+            r1::notify_bounded_queue_monitor(my_monitors, cbq_slots_avail_tag, target);
+        });
+        return popped;
     }
 
     bool internal_pop_if_present( void* dst ) {
         bool present{};
         ticket_type ticket{};
-        std::tie(present, ticket) = internal_try_pop_impl(dst, *my_queue_representation, my_allocator);
+        try_call( [&] {
+            std::tie(present, ticket) = internal_try_pop_impl(dst, *my_queue_representation, my_allocator);
+        }).on_exception( [&] {
+            // The slot is consumed even if the assignment of the popped item throws: wake up every thread
+            // whose awaited slot is already free
+            r1::notify_bounded_queue_monitor(my_monitors, cbq_slots_avail_tag,
+                                             my_queue_representation->head_counter.load(std::memory_order_relaxed) - 1);
+        });
 
         if (present) {
             r1::notify_bounded_queue_monitor(my_monitors, cbq_slots_avail_tag, ticket);
